@@ -6,6 +6,10 @@ from props import sierra_runtime as rt
 
 def run(ctx):
     r = sc.run_common(ctx, "C04.v", ["C04_cost_bound"])
+    # Coq side of the libfunc-level premise branch_dyn: path theorems over the wrapper set and over the freshly
+    # compiled examples / bug samples / zoo (props/h03common.py; evidence key libfunc_path_theorems)
+    from props import h03common as hc
+    hc.path_theorems(ctx, ctx.out + "/corpus")
     cf = [f for f in r["static_failures"] if f["why"].startswith("libfunc_cost_ok")]
     for f in cf[:5]:
         ctx.violation("a libfunc branch executes more steps than its declared cost pays for: " + f["why"],
